@@ -202,6 +202,40 @@ def post_conditions(em, rng, pool_bool, pool_num, viol, res):
     chk(em.Not(nx) is (x if not x.is_not() else em.Not(nx)), "post:Not(Not(x))", f"Not(Not({x})) = {em.Not(nx)}")
     if not x.is_not():
         chk(nx.is_not() and nx.arg(0) is x, "post:Not(x)", f"Not({x}) = {nx}")
+    # "exactly their documented normalisations": nothing else is folded at construction time - constants, neutral / absorbing
+    # elements and repeated operands stay structural (found missing by seeded change C16-5: Not(TRUE) folded to FALSE)
+    T, F = em.TRUE(), em.FALSE()
+    i0, i1 = em.Int(0), em.Int(1)
+    kb = rng.choice([T, F])
+    pyb = kb is T
+    structural = [
+        ("Not(const)", em.Not(kb), OK.NOT, (kb,)),
+        ("Not(python-bool)", em.Not(pyb), OK.NOT, (kb,)),
+        ("~const", ~kb, OK.NOT, (kb,)),
+        ("And(x,const)", em.And(x, kb), OK.AND, (x, kb)),
+        ("Or(const,x)", em.Or(kb, x), OK.OR, (kb, x)),
+        ("And(x,x)", em.And(x, x), OK.AND, (x, x)),
+        ("Or(x,x)", em.Or(x, x), OK.OR, (x, x)),
+        ("Implies(x,x)", em.Implies(x, x), OK.IMPLIES, (x, x)),
+        ("Implies(const,x)", em.Implies(kb, x), OK.IMPLIES, (kb, x)),
+        ("Iff(x,const)", em.Iff(x, kb), OK.IFF, (x, kb)),
+        ("Plus(a,0)", em.Plus(a, 0), OK.PLUS, (a, i0)),
+        ("Times(1,a)", em.Times(1, a), OK.TIMES, (i1, a)),
+        ("Times(a,0)", em.Times(a, 0), OK.TIMES, (a, i0)),
+        ("Minus(a,a)", em.Minus(a, a), OK.MINUS, (a, a)),
+        ("Minus(a,0)", em.Minus(a, 0), OK.MINUS, (a, i0)),
+        ("Div(a,1)", em.Div(a, 1), OK.DIV, (a, i1)),
+        ("Equals(a,a)", em.Equals(a, a), OK.EQUALS, (a, a)),
+        ("LE(1,2)", em.LE(1, 2), OK.LE, (i1, em.Int(2))),
+        ("LT(a,a)", em.LT(a, a), OK.LT, (a, a)),
+        ("Plus(1,2)", em.Plus(1, 2), OK.PLUS, (i1, em.Int(2))),
+    ]
+    for label, n, nt, args in structural:
+        chk(
+            n.node_type == nt and len(n.args) == len(args) and all(p is q for p, q in zip(n.args, args)),
+            "post:undocumented-normalisation:" + label.split("(")[0].replace("~const", "Not"),
+            f"{label} with x={x}, a={a}, const={kb} = {n} ({n.node_type.name}); only And/Or/Plus/Times of 0-1 arguments, double negation, GE/GT mirroring and numeric literals are documented to normalise",
+        )
     chk(em.GE(a, c) is em.LE(c, a), "post:GE-mirrors-LE", f"GE({a},{c}) is not LE({c},{a})")
     chk(em.GT(a, c) is em.LT(c, a), "post:GT-mirrors-LT", f"GT({a},{c}) is not LT({c},{a})")
     le = em.LE(a, c)
